@@ -1,6 +1,7 @@
 package clientsim
 
 import (
+	"errors"
 	"bufio"
 	"context"
 	"encoding/json"
@@ -32,9 +33,17 @@ func (s *Sim) boot() {
 	s.conn = newFakeConn(s)
 	for i := range s.cfg.Xid {
 		ctx, cancel := context.WithCancel(context.Background())
+		withCause := (i+s.cfg.ReadErrKind)%3 == 1 // contexts that carry a cause of their own: the call still reports the context's error
+		if withCause {
+			c2, cc := context.WithCancelCause(context.Background())
+			ctx, cancel = c2, func() { cc(errCause) }
+		}
 		if i < len(s.cfg.CtxDeadline) && s.cfg.CtxDeadline[i] > 0 {
 			// the caller's context ends by its own deadline (context.WithTimeout style)
 			ctx, cancel = context.WithDeadline(context.Background(), time.Now().Add(time.Duration(s.cfg.CtxDeadline[i])*unit))
+			if withCause {
+				ctx, cancel = context.WithDeadlineCause(context.Background(), time.Now().Add(time.Duration(s.cfg.CtxDeadline[i])*unit), errCause)
+			}
 		}
 		if i < len(s.cfg.CtxBackground) && s.cfg.CtxBackground[i] {
 			ctx, cancel = context.Background(), func() {}
@@ -53,6 +62,8 @@ func (s *Sim) boot() {
 	}
 	synctest.Wait()
 }
+
+var errCause = errors.New("the operator gave up")
 
 type step []json.RawMessage
 
